@@ -97,7 +97,8 @@ pub enum Piece {
     Isect,
 }
 
-/// `alt = true` prints array constants the way the known defect C09-array-const re-renders them.
+/// `alt` is unused since fix f50ad32 (it printed array constants the way the defect C09-array-const re-rendered
+/// them: ARRAY(ARRAYROW(..))); kept so that callers need not change.
 pub fn pieces(e: &E, out: &mut Vec<Piece>, alt: bool) {
     let t = |s: &str| Piece::T(s.to_string());
     match e {
@@ -107,37 +108,25 @@ pub fn pieces(e: &E, out: &mut Vec<Piece>, alt: bool) {
         E::Err(s) => out.push(t(s)),
         E::Ref(r) => out.push(Piece::T(ref_txt(r))),
         E::Array(rows) => {
-            if alt {
-                out.push(t("ARRAY("));
-                for (i, r) in rows.iter().enumerate() {
-                    if i > 0 {
+            out.push(t("{"));
+            out.push(Piece::Opt);
+            for (i, r) in rows.iter().enumerate() {
+                if i > 0 {
+                    out.push(Piece::Opt);
+                    out.push(t(";"));
+                    out.push(Piece::Opt);
+                }
+                for (j, x) in r.iter().enumerate() {
+                    if j > 0 {
+                        out.push(Piece::Opt);
                         out.push(t(","));
+                        out.push(Piece::Opt);
                     }
-                    out.push(t("ARRAYROW("));
-                    for (j, x) in r.iter().enumerate() {
-                        if j > 0 {
-                            out.push(t(","));
-                        }
-                        pieces(x, out, alt);
-                    }
-                    out.push(t(")"));
+                    pieces(x, out, alt);
                 }
-                out.push(t(")"));
-            } else {
-                out.push(t("{"));
-                for (i, r) in rows.iter().enumerate() {
-                    if i > 0 {
-                        out.push(t(";"));
-                    }
-                    for (j, x) in r.iter().enumerate() {
-                        if j > 0 {
-                            out.push(t(","));
-                        }
-                        pieces(x, out, alt);
-                    }
-                }
-                out.push(t("}"));
             }
+            out.push(Piece::Opt);
+            out.push(t("}"));
         }
         E::Pre(c, x) => {
             out.push(Piece::T(c.to_string()));
@@ -603,8 +592,9 @@ const STRUCTS: [&str; 6] = ["Table1[Col]", "Table1[#All]", "Table1[@Col]", "Tabl
 const BINOPS: [&str; 12] = ["+", "-", "*", "/", "^", "&", "=", "<", ">", "<=", ">=", "<>"];
 
 fn gen_const(rng: &mut Rng) -> E {
-    match rng.below(5) {
+    match rng.below(6) {
         0 | 1 => E::Num(rng.pick(&NUMS[..6]).to_string()),
+        5 => E::Pre('-', Box::new(E::Num(rng.pick(&NUMS[..6]).to_string()))),
         2 => E::Str(gen_str(rng)),
         3 => E::Bool(rng.chance(1, 2)),
         _ => E::Err(*rng.pick(&ERRORS)),
@@ -625,7 +615,7 @@ pub fn gen_leaf(rng: &mut Rng, cfg: &GenCfg, small: bool) -> E {
         16 | 17 => E::Name(rng.pick(&NAMES).to_string()),
         18 if cfg.structured => E::Struct(rng.pick(&STRUCTS).to_string()),
         19 if cfg.arrays => {
-            let rows = rng.range(1, 2);
+            let rows = rng.range(1, 3);
             let cols = rng.range(1, 3);
             E::Array((0..rows).map(|_| (0..cols).map(|_| gen_const(rng)).collect()).collect())
         }
